@@ -62,6 +62,25 @@ class Boom:
         raise RuntimeError("boom in __eq__")
 
 
+def short_report_case(tname, vals):
+    """--inline-snapshot=short-report: the summary at the end of the session is printed for any number of pending
+    changes per category without an internal error, and no file is touched"""
+    ns = dict(SUPPORT_NS)
+    ns["Boom"] = Boom
+    ns["Is"] = Is
+    ns.update(vals)
+    world.reset(ns)
+    body, _ = TEMPLATES[tname]
+    t = HEAD + EXTRA_HEAD.get(tname, "") + "def test_a():\n" + body
+    W.no_canon = True
+    try:
+        r = world.plugin_session(t, cli="short-report")
+    finally:
+        W.no_canon = False
+    PathLog.record(f"short{tname}{type(r.finish_error).__name__}", nontrivial=True, sample={"template": tname, "flags": ["short-report"], "sessionfinish_error": repr(r.finish_error) if r.finish_error is not None else None})
+    return r.usage_error is None and r.finish_error is None and not r.written
+
+
 def finish_case(tname, fbits, vals):
     ns = dict(SUPPORT_NS)
     ns["Boom"] = Boom
@@ -92,7 +111,7 @@ def finish_case(tname, fbits, vals):
     return True
 
 
-GLB = {"finish_case": finish_case, "__name__": "harness.c18"}
+GLB = {"short_report_case": short_report_case, "finish_case": finish_case, "__name__": "harness.c18"}
 
 
 def conditions(tier):
@@ -106,6 +125,14 @@ def conditions(tier):
         name = f"finish_{tname}"
         fn = mkfn(name, fb + [(n, "int") for n in names], f"return finish_case({tname!r}, [f0, f1, f2, f3], {vd})", GLB)
         conds.append(Cond(name, fn, timeout=900, group=tname, bounds=f"template `{tname}`: {body.strip()!r}; values symbolic ints; every subset of create/fix/trim/update approved"))
+    for tname in ("abort_then_later", "mixed_operations", "getitem_multiline", "nested_list_shorter", "unicode_list_mixed", "two_tests_share_failing", "changing_argument", "parenthesized_elements"):
+        if tname not in TEMPLATES:
+            continue
+        body, names = TEMPLATES[tname]
+        vd = "{" + ", ".join(f"{n!r}: {n}" for n in names) + "}"
+        name = f"short_report_{tname}"
+        conds.append(Cond(name, mkfn(name, [(n, "int") for n in names], f"return short_report_case({tname!r}, {vd})", GLB), timeout=600, group="short-report",
+                          bounds=f"template `{tname}` with --inline-snapshot=short-report (0, 1 or several pending changes per category, decided by the symbolic values)"))
     tw = mkfn("finish_twin", fb + [("x0", "int"), ("c0", "int"), ("x1", "int"), ("c1", "int")], "return finish_case('exception_between', [f0, f1, f2, f3], {'x0': x0, 'c0': c0, 'x1': x1, 'c1': c1})", GLB, post="not _")
     conds.append(Cond("finish_twin", tw, timeout=60, twin=True))
     return conds
